@@ -1453,3 +1453,25 @@ func WLockFn(m *sync.RWMutex, site string) func() { return func() { WLock(m, sit
 func WUnlockFn(m *sync.RWMutex) func()            { return func() { WUnlock(m) } }
 func RLockFn(m *sync.RWMutex, site string) func() { return func() { RLock(m, site) } }
 func RUnlockFn(m *sync.RWMutex) func()            { return func() { RUnlock(m) } }
+
+// PanicInHarness reports whether a recorded task panic (TaskPanics entry: value + stack) was raised by
+// harness or simulator code rather than by the code under test: the innermost frame that is neither Go
+// runtime nor this package decides. Worlds whose property is "never panics" use it to keep their own bugs
+// from being reported as the repository's.
+func PanicInHarness(msg string) bool {
+	for _, l := range strings.Split(msg, "\n") {
+		if !strings.HasPrefix(l, "\t/") {
+			continue
+		}
+		path := strings.TrimSpace(l)
+		if i := strings.Index(path, ":"); i > 0 {
+			path = path[:i]
+		}
+		if strings.Contains(path, "/src/runtime/") || strings.Contains(path, "/src/testing/") || strings.HasSuffix(path, "/sim/simrt/simrt.go") {
+			continue
+		}
+		base := path[strings.LastIndex(path, "/")+1:]
+		return strings.HasPrefix(base, "zz_") || strings.Contains(path, "/verif/sim/") || strings.Contains(path, "/verif/harness/")
+	}
+	return false
+}
